@@ -70,8 +70,13 @@ type Case struct {
 	// CP c. Every list is the restriction of one linear extension of the whole DAG.
 	Parts [][][]int
 	// text-level freedom that must not matter
-	LinkDef   bool // emit the `%meta filinkdef` lines
-	SinkFirst bool // the consumer-side filinkatt line precedes the producer-side one
+	// Names[i] / CPNames[c]: the name of instance i / of the CP at position c of a partition in the text
+	// (default n<i> / cp<c>); drawn from pools in which one name is a prefix or substring of another and
+	// in which the alphabetical order differs from the numbering
+	Names     []string `json:",omitempty"`
+	CPNames   []string `json:",omitempty"`
+	LinkDef   bool     // emit the `%meta filinkdef` lines
+	SinkFirst bool     // the consumer-side filinkatt line precedes the producer-side one
 	// Probe: do not exclude the recorded defect classes; evaluate and report them with their
 	// signature (replay files under known/ set it; never generated).
 	Probe bool
@@ -268,6 +273,23 @@ func (in Instr) Text() string {
 	return fmt.Sprintf("%s r%d, r%d", in.Op, in.A, in.B)
 }
 
+func (c *Case) instName(i int) string {
+	if i < len(c.Names) && c.Names[i] != "" {
+		return c.Names[i]
+	}
+	return fmt.Sprintf("n%d", i)
+}
+
+func (c *Case) cpName(ci int) string {
+	if ci < len(c.CPNames) && c.CPNames[ci] != "" {
+		return c.CPNames[ci]
+	}
+	return fmt.Sprintf("cp%d", ci)
+}
+
+var instNamePool = []string{"n1", "n10", "n11", "n100", "n2", "x", "xy", "xyz", "node_1_1", "node_1_10", "node_11_1", "a", "ab", "ba", "b"}
+var cpNamePool = []string{"cp10", "cp2", "cp1", "cp0", "z", "a", "m", "proc_b", "proc_a", "cp"}
+
 // Source renders the graph with partition part as a BASM file.
 func (c *Case) Source(part [][]int) string {
 	var b strings.Builder
@@ -285,7 +307,7 @@ func (c *Case) Source(part [][]int) string {
 		fmt.Fprintf(&b, "%%endfragment\n")
 	}
 	for i, in := range c.Insts {
-		fmt.Fprintf(&b, "%%meta fidef n%d fragment:f%d\n", i, in.Frag)
+		fmt.Fprintf(&b, "%%meta fidef %s fragment:f%d\n", c.instName(i), in.Frag)
 	}
 	for k, l := range c.Links() {
 		if c.LinkDef {
@@ -295,12 +317,12 @@ func (c *Case) Source(part [][]int) string {
 		if l.From.Inst < 0 {
 			from = fmt.Sprintf("%%meta filinkatt l%d fi:ext, type:input, index:%d\n", k, l.From.Port)
 		} else {
-			from = fmt.Sprintf("%%meta filinkatt l%d fi:n%d, type:output, index:%d\n", k, l.From.Inst, l.From.Port)
+			from = fmt.Sprintf("%%meta filinkatt l%d fi:%s, type:output, index:%d\n", k, c.instName(l.From.Inst), l.From.Port)
 		}
 		if l.To.Inst < 0 {
 			to = fmt.Sprintf("%%meta filinkatt l%d fi:ext, type:output, index:%d\n", k, l.To.Port)
 		} else {
-			to = fmt.Sprintf("%%meta filinkatt l%d fi:n%d, type:input, index:%d\n", k, l.To.Inst, l.To.Port)
+			to = fmt.Sprintf("%%meta filinkatt l%d fi:%s, type:input, index:%d\n", k, c.instName(l.To.Inst), l.To.Port)
 		}
 		if c.SinkFirst {
 			b.WriteString(to + from)
@@ -309,9 +331,9 @@ func (c *Case) Source(part [][]int) string {
 		}
 	}
 	for ci, cp := range part {
-		fmt.Fprintf(&b, "%%meta cpdef cp%d fragcollapse", ci)
+		fmt.Fprintf(&b, "%%meta cpdef %s fragcollapse", c.cpName(ci))
 		for _, i := range cp {
-			fmt.Fprintf(&b, ":n%d", i)
+			fmt.Fprintf(&b, ":%s", c.instName(i))
 		}
 		b.WriteString("\n")
 	}
@@ -609,6 +631,12 @@ func genCase(t *rapid.T) Case {
 	}
 	c.LinkDef = rapid.Bool().Draw(t, "linkdef")
 	c.SinkFirst = rapid.Bool().Draw(t, "sinkfirst")
+	if rapid.Bool().Draw(t, "oddnames") {
+		c.Names = permuteStr(instNamePool, rapid.Permutation(seq(len(instNamePool))).Draw(t, "instnames"))[:ni]
+	}
+	if rapid.Bool().Draw(t, "oddcpnames") {
+		c.CPNames = permuteStr(cpNamePool, rapid.Permutation(seq(len(cpNamePool))).Draw(t, "cpnames"))[:min(ni, len(cpNamePool))]
+	}
 
 	// partitions: finest, coarsest, random ones
 	order := linearExtension(t, &c)
@@ -645,6 +673,14 @@ func genCase(t *rapid.T) Case {
 
 func permute(xs []Src, p []int) []Src {
 	r := make([]Src, len(xs))
+	for i, k := range p {
+		r[i] = xs[k]
+	}
+	return r
+}
+
+func permuteStr(xs []string, p []int) []string {
+	r := make([]string, len(xs))
 	for i, k := range p {
 		r[i] = xs[k]
 	}
